@@ -243,6 +243,18 @@ func AttrQuote(s string) string {
 	return `"` + strings.ReplaceAll(s, `"`, `\"`) + `"`
 }
 
+// attrWrap writes an attribute expression over two lines now and then (white space around an
+// expression means nothing; inside its string literals every blank counts).
+func attrWrap(t string) string {
+	switch len(t) % 5 {
+	case 1:
+		return t + "\n  "
+	case 3:
+		return "\n    " + t
+	}
+	return t
+}
+
 func printDirectives(ds []Directive) string { return (&printer{}).directives(ds, false) }
 
 // PrintDirectives is the canonical source text of a directive chain (the identity of a print command
@@ -504,7 +516,7 @@ func (p *printer) cmd(c *Cmd) {
 		if c.Call.DataAll {
 			dataAttr = `data="all"`
 		} else if c.Call.Data != nil {
-			dataAttr = "data=" + AttrQuote(attrExpr(c.Call.Data))
+			dataAttr = "data=" + AttrQuote(attrWrap(attrExpr(c.Call.Data)))
 		}
 		inner := "call" + name + p.attrs(strings.TrimSpace(nameAttr), dataAttr)
 		if len(c.Call.Params) == 0 {
@@ -531,7 +543,7 @@ func (p *printer) cmd(c *Cmd) {
 			case pr.Style == 0:
 				b.WriteString(tag("param" + p.sp() + pr.Key + ":" + p.sp() + PrintExpr(pr.Value) + p.sp() + "/"))
 			default:
-				b.WriteString(tag("param" + p.attrs("key="+AttrQuote(pr.Key), "value="+AttrQuote(attrExpr(pr.Value))) + p.sp() + "/"))
+				b.WriteString(tag("param" + p.attrs("key="+AttrQuote(pr.Key), "value="+AttrQuote(attrWrap(attrExpr(pr.Value)))) + p.sp() + "/"))
 			}
 			b.WriteString(c.Gap)
 		}
